@@ -12,12 +12,12 @@ const kdcPkgPath = modPath + "/cmd/rdpgw/kdcproxy"
 
 func init() {
 	register(&Property{
-		ID:        "C20",
-		Title:     "KDC proxy relays Kerberos messages faithfully and always answers",
-		DesignRef: "DESIGN.md §3 C20",
-		Technique: "edge-cut guarded reachability of the forward call in KerberosProxy.Handler (validation chain with status codes) + SSA value origin for the relayed bytes + structural channel balance (receive sites vs. started senders per loop over the same slice) + A8 bounds obligations + deadline pairing",
-		LevelText: "Static: forward (the only path to a KDC socket) is reachable only for POST, with a declared length <= the constant 128 KiB, a fully read body and a DER decode that consumed all bytes; the refusing branches answer 405/411/413/400; the route is POST-only. The bytes written to a TCP KDC are the decoded message unchanged, the reply returned is what a reader goroutine received, and the response body is its KDC-PROXY-MESSAGE encoding. Every KDC connection gets a constant deadline before its first write. For 'always answers', the handler's path must be free of undischarged partial operations and every blocking channel receive must have a started sender: receive sites and go sites are counted per loop over the same slice. The last part is violated on today's tree (index panics, N+1 receives for at most N senders, no sender after a failed dial, UDP replies read with ReadAll) and recorded as known findings; validation and TCP faithfulness hold.",
-		LevelNote: "Trusted: asn1 (gofork) decoding, net dial/deadline semantics. Not decided: latency bounds as numbers, what KDCs answer. Known findings: kdcproxy.forward/awaitReply (see known_findings.json).",
+		ID:          "C20",
+		Title:       "KDC proxy relays Kerberos messages faithfully and always answers",
+		DesignRef:   "DESIGN.md §3 C20",
+		Technique:   "edge-cut guarded reachability of the forward call in KerberosProxy.Handler (validation chain with status codes) + SSA value origin for the relayed bytes + structural channel balance (receive sites vs. started senders per loop over the same slice) + A8 bounds obligations + deadline pairing",
+		LevelText:   "Static: forward (the only path to a KDC socket) is reachable only for POST, with a declared length <= the constant 128 KiB, a fully read body and a DER decode that consumed all bytes; the refusing branches answer 405/411/413/400; the route is POST-only. The bytes written to a TCP KDC are the decoded message unchanged, the reply returned is what a reader goroutine received, and the response body is its KDC-PROXY-MESSAGE encoding. Every KDC connection gets a constant deadline before its first write. For 'always answers', the handler's path must be free of undischarged partial operations and every blocking channel receive must have a started sender: receive sites and go sites are counted per loop over the same slice. The last part is violated on today's tree (index panics, N+1 receives for at most N senders, no sender after a failed dial, UDP replies read with ReadAll) and recorded as known findings; validation and TCP faithfulness hold.",
+		LevelNote:   "Trusted: asn1 (gofork) decoding, net dial/deadline semantics. Not decided: latency bounds as numbers, what KDCs answer. Known findings: kdcproxy.forward/awaitReply (see known_findings.json).",
 		Explanation: "C20/validation cuts the edges of each required condition before the forward call and checks the status constant on each refusing branch; decode's accepting return needs len(rest) == 0. C20/faithful follows the written and returned values. C20/bounded-io checks SetDeadline before Write on each dialled connection. C20/answers restricts the A8 bounds obligations to the proxy and compares receive and send multiplicities of the replies channel; C20/udp-read flags stream reads on datagram sockets.",
 		Assumptions: []string{"gokrb5's GetKDCs returns maps with 1-based keys (read in the dependency's source)"},
 		Rules: []RuleDef{
